@@ -287,13 +287,13 @@ PROPS = {
         "technique": "property-based testing: bounded-exhaustive enumeration of single calls (status x headers x bodies x strict/loose x ETag cache state) against a reference transport, and of all interleavings of 2 (quick+thorough) / 3 (thorough: exhaustive, quick: rapid-sampled) concurrent calls at the granularity header-enrichment / round trip / response-adjustment against a scripted server",
         "level_text": "the harness owns the schedule: each concurrent call is parked inside the scripted HTTP client at the three points the property names, so every interleaving is an enumerated value; the oracle is an explicit reference transport",
         "rule": ("single calls: 11 status codes x 8 bodies (valid, minimal, unknown field, duplicate field, case-variant field, invalid JSON, empty, wrong type) x strict/loose x ETag state (disabled, empty, hit, expired via a 1 ms TTL) x response ETag x 5 Retry-After forms x transport error, enumerated exhaustively; "
-                 "schedules: all orders of E/R/A events of 2 or 3 calls x server content bumps before each round trip x warm/cold cache; timeouts: a real executor against a loopback HTTP server that stalls before the headers, after them or mid-body (200 ms timeout, verdict after at most 5 s); non-trivial = a 304/412 or If-None-Match path was taken, or two calls overlapped; distinct = distinct choice sequences"),
+                 "schedules: all orders of E/R/A events of 2 or 3 calls x server content bumps before each round trip x warm/cold cache; configuration: 6 shapes of the webhook's etag block x the second answer (304/412/200) through the real constructor; timeouts: a real executor against a loopback HTTP server that stalls before the headers, after them or mid-body (200 ms timeout, verdict after at most 5 s); non-trivial = a 304/412 or If-None-Match path was taken, or two calls overlapped; distinct = distinct choice sequences"),
         "level_note": "A1 toolchain/libraries behave as documented; expiry of ETag cache entries uses the wall clock (1 ms TTL, 3 ms sleep); the scripted HTTP client replaces the network except in the timeout job, which talks to a loopback httptest server through the real (metrics-instrumented) client and reads the wall clock with a 25x margin",
         "jobs": [
             {"name": "c19-regress", "pkg": HOOKS, "tests": ["TestVerifC19Regressions"]},
             {"name": "c19-single", "pkg": HOOKS, "tests": ["TestVerifC19SingleCallExhaustive"], "shards": {"quick": 8, "thorough": 8}, "timeout": {"quick": 900, "thorough": 3000}},
             {"name": "c19-sched2", "pkg": HOOKS, "tests": ["TestVerifC19Schedules2", "TestVerifC19ExpireInFlight"]},
-            {"name": "c19-timeouts", "pkg": HOOKS, "tests": ["TestVerifC19Timeouts"]},
+            {"name": "c19-timeouts", "pkg": HOOKS, "tests": ["TestVerifC19Timeouts", "TestVerifC19EtagConfig"]},
             {"name": "c19-sched3", "pkg": HOOKS, "tests": ["TestVerifC19Schedules3"], "checks": {"quick": 3000, "thorough": 100}, "shards": {"quick": 2, "thorough": 12}, "timeout": {"quick": 900, "thorough": 3000}},
         ],
     },
